@@ -6,6 +6,7 @@ import (
 	"strings"
 
 	"github.com/go-kid/ioc/component_definition"
+	"github.com/go-kid/ioc/container/processors"
 	"verifharness/core"
 	"verifharness/world"
 )
@@ -298,6 +299,27 @@ func (p c19) faithful(c *core.Ctx) {
 			}
 		}
 	}
+	// every parsed item is matched by Has (in any order of the written items), unknown items are not
+	for key, want := range rargs {
+		if !pr.Args().Has(component_definition.ArgType(key)) {
+			c.Fail("", fmt.Sprintf("tag %q: Has(%q) is false for a present argument", tag, key), nil)
+			return
+		}
+		for _, it := range want {
+			if !pr.Args().Has(component_definition.ArgType(key), it) {
+				c.Fail("", fmt.Sprintf("tag %q: Has(%q, %q) is false although %q is one of the argument's items %q", tag, key, it, it, want), nil)
+				return
+			}
+			if !pr.Args().Has(component_definition.ArgType(key), "no-such-item", it) {
+				c.Fail("", fmt.Sprintf("tag %q: Has(%q, \"no-such-item\", %q) is false although %q is one of the items", tag, key, it, it), nil)
+				return
+			}
+		}
+		if pr.Args().Has(component_definition.ArgType(key), "no-such-item-\x00") {
+			c.Fail("", fmt.Sprintf("tag %q: Has(%q, <unknown item>) is true", tag, key), nil)
+			return
+		}
+	}
 	n := 0
 	pr.Args().ForEach(func(t component_definition.ArgType, _ []string) { n++ })
 	if n != len(rargs) {
@@ -366,8 +388,18 @@ func (p c19) e2e(c *core.Ctx) {
 	}
 	// a satisfiable prop with a bracketed default and further arguments must bind the default
 	fields = append(fields, world.FieldSpec{Name: "L", Type: reflect.TypeOf([]int{}), Tag: world.WireTag("prop", "no.such.list:[1,2,3],required=true"+extra())})
+	// a point found by a user-supplied scanner (which does not set any default of its own) is required
+	// unless its tag says required=false
+	custom := c.Rng.Intn(3) == 0
+	var scanners []any
+	if custom {
+		// only this point decides the outcome: drop the other unsatisfiable point
+		tag = world.WireTag("mywire", "whatever"+args)
+		fields = []world.FieldSpec{{Name: "F", Type: world.TypeIA, Tag: tag}, fields[len(fields)-1]}
+		scanners = append(scanners, &userScanner{processors.DefaultTagScanDefinitionRegistryPostProcessor{NodeType: component_definition.PropertyTypeComponent, Tag: "mywire"}})
+	}
 	h := world.NewHolder(world.BuildStruct(fields))
-	r := world.Start(&world.Scenario{}, world.Options{Extra: []any{h}})
+	r := world.Start(&world.Scenario{}, world.Options{Extra: append([]any{h}, scanners...)})
 	c.Count("e2e_starts", 1)
 	if abnormal(r.Outcome()) {
 		c.Fail("", fmt.Sprintf("holder with tag %s: %s", tag, r.OutcomeDetail()), map[string]any{"tag": tag})
@@ -394,3 +426,9 @@ func (p c19) e2e(c *core.Ctx) {
 	}
 	c.Nontrivial("e2e:" + tag)
 }
+
+type userScanner struct {
+	processors.DefaultTagScanDefinitionRegistryPostProcessor
+}
+
+func (u *userScanner) Naming() string { return "verif.userscanner" }
